@@ -42,12 +42,35 @@ def keyed_case(draw, opts, raw=False, with_assert=False):
         node = draw(st.sampled_from([['assert_mod', draw(st.integers(2, 5)), draw(st.integers(0, 1))], ['assert1_le']]))
         p = p1 + [node] + draw(gen.chain(t, NOEARLY, NOEARLY.max_depth, max_len=3))
     items = draw(gen.keyed_items(max_keys=5, max_size=16, mono=tin))
-    case = {'tin': tin, 'p': p, 'items': items}
+    case = {'tin': tin, 'p': p, 'items': items, 'numpy': draw(st.integers(0, 5)) == 0}
     if raw:
         nk = 1 + max(k for k, _ in items)
         case['idx'] = draw(st.permutations([0, 1, 2, 5, 17, 3, 9]))[:nk]
         case['early_complete'] = draw(st.lists(st.booleans(), min_size=nk, max_size=nk))
     return case
+
+
+def np_items(case):
+    """the items of the case; with case['numpy'] the values are numpy scalars (what a pipeline fed from arrays / data frames
+    carries) -- they compare and compute like Python numbers but their comparisons return numpy.bool_"""
+    if not case.get('numpy'):
+        return case['items']
+    import numpy as np
+    nodes = list(A.walk(case['p']))
+    if any(n[0] == 'tee' and n[1] == 'merge' for n in nodes) and any(n[0] == 'duc' for n in nodes):
+        # a merge of branches of different types puts numbers and lists on one stream, and numpy compares a scalar with a
+        # list element-wise ([0] != np.int64(0) is array([False])): distinct_until_changed has no defined result there
+        raise Reject()
+
+    def conv(v):
+        if isinstance(v, bool) or v is None:
+            return v
+        if isinstance(v, int):
+            return np.int64(v) if abs(v) < 2 ** 62 else v
+        if isinstance(v, float):
+            return np.float64(v)
+        return v
+    return [[k, conv(v)] for k, v in case['items']]
 
 
 def groups_of(items):
@@ -198,16 +221,17 @@ def compare(case, plain, pactions, r, per, kactions, what):
             raise Violation('plain pipeline failed on a non-empty group although the model accepts the case',
                             group=k, values=g[k], result=pr.brief(), pipeline=p)
     H.require_clean(r, what, pipeline=p, items=items)
+    dn = cmp.denumpy if case.get('numpy') else (lambda v: v)
     for k in order:
-        got = per.get(k, [])
-        if not cmp.same_seq(got, plain[k].items, approx=False):
+        got = dn(per.get(k, []))
+        if not cmp.same_seq(got, dn(plain[k].items), approx=False):
             raise Violation('%s: group %r differs from the plain run of the same pipeline' % (what, k),
                             group=k, values=g[k], plain=plain[k].items, keyed=got, pipeline=p, items=items)
     extra = [k for k in per if k not in g]
     if extra:
         raise Violation('%s: output for unknown keys %r' % (what, extra), pipeline=p, items=items)
     # side effects upstream of take/first legitimately differ: a plain observable disposes its source early
-    if not gen.has_early(p) and not cmp.same_bag(pactions, kactions, approx=False):
+    if not gen.has_early(p) and not cmp.same_bag(dn(pactions), dn(kactions), approx=False):
         raise Violation('%s: do_action saw different items' % what, plain=pactions, keyed=kactions, pipeline=p, items=items)
 
 
@@ -223,10 +247,15 @@ def info(case, plain):
         labels.append('interleaved')
     if stateful:
         labels.append('stateful')
+    if case.get('numpy'):
+        labels.append('numpy-scalars')
     return {'nontrivial': interleaved and stateful and has_out, 'labels': labels}
 
 
 def check_grouped(case):
+    for k in groups_of(case['items'])[0]:
+        in_domain(case['p'], groups_of(case['items'])[1][k])
+    case = dict(case, items=np_items(case))
     order, g = groups_of(case['items'])
     plain, pa = plain_runs(case['p'], order, g)
     r, per, ka = keyed_grouped(case['p'], case['items'])
@@ -235,6 +264,7 @@ def check_grouped(case):
 
 
 def check_raw(case):
+    case = dict(case, items=np_items(case))
     order, g = groups_of(case['items'])
     plain, pa = plain_runs(case['p'], order, g)
     r, per, ka = keyed_raw(case['p'], case)
@@ -249,7 +279,7 @@ def check_raw(case):
 def check_segments(case):
     """The keyed observable is made by rs.data.split (or a tumbling rs.data.roll): its groups follow each other on the SAME key
     index, so every stateful operator of P starts each group on a recycled store slot."""
-    p, src = case['p'], case['items']
+    p, src = case['p'], np_items(case)
     if case.get('by') == 'roll':
         n = case['n']
         runs = [[v for _, v in src[i:i + n]] for i in range(0, len(src), n)]
